@@ -1,6 +1,9 @@
 //! Verification harness: runs the plonky2 implementation on generated cases and writes
 //! line-oriented case files for the Coq model (extracted OCaml / in-Coq vm_compute) to replay.
+mod c01;
 mod c14;
+mod corpus;
+mod dsl;
 mod rng;
 
 use std::io::{BufWriter, Write};
@@ -12,7 +15,9 @@ fn main() {
         std::process::exit(2);
     }
     // silence panic messages of caught panics (they are outcomes, not errors)
-    std::panic::set_hook(Box::new(|_| {}));
+    if std::env::var("VERIF_PANIC").is_err() {
+        std::panic::set_hook(Box::new(|_| {}));
+    }
     let prop = args[1].as_str();
     let seed: u64 = args[2].parse().expect("seed");
     let tier = args[3].as_str();
@@ -20,6 +25,7 @@ fn main() {
     let mut w = BufWriter::new(f);
     let n = match prop {
         "c14" => c14::run(seed, tier, &mut w),
+        "c01" => c01::run(seed, tier, &mut w),
         _ => {
             eprintln!("unknown property {}", prop);
             std::process::exit(2);
